@@ -7,6 +7,8 @@
 import DDS.Props.C01GenPag
 import DDS.Props.C02GenPag
 import DDS.Props.C05GenSketch
+import DDS.Props.C04GenPag
+import DDS.Props.NonVacuity
 
 namespace DDS.Props.NonVacuityGen
 
@@ -158,5 +160,203 @@ example (grow : Int → Int → Int) :
   · rw [ex_clamp, exCn_total] at a; norm_num at a
 
 end C02
+
+/-! ## C05GenSketch: `exEnv`, `exXs`, collapsing stores with ONE bin (something is collapsed: on the positive
+    side bin 0 of the value 3 is folded) -/
+section C05
+open DDS.QuantileEx DDS.Gen.Sketch DDS.Gen.Dense DDS.GenSketch DDS.GenStoreSim DDS.GenLowSketch
+open DDS.GenPagSketch (runAdds)
+open DDS.Props.C01GenPag (unitAdds)
+open DDS.Props.C05GenSketch DDS.GenDenseSketch DDS.GenHighSketch
+
+/-- `collapsing_sketch_contents_regenerated` -/
+example : let g := runAdds (newLow exEnv 1) (unitAdds exXs)
+    g.2 = List.replicate exXs.length GoErr.nil ∧
+    ∃ (s₀ : Sketch) (cp cn : Content) (dp dn : DStore),
+      Sketch.addAll exEnv (Sketch.new (some exEnv.id) .sparse) (exXs.map (fun x => (x, 1))) = some s₀ ∧
+      s₀ = Sketch.spec (some exEnv.id) cp cn g.1.zeroCount ∧ g.1.IndexMapping = exEnv ∧ cp.WF ∧ cn.WF ∧
+      g.1.positiveValueStore.g = GenDense.toLow ((1 : Nat) : Int) dp ∧ dp.kind = .low 1 ∧
+      g.1.negativeValueStore.g = GenDense.toLow ((1 : Nat) : Int) dn ∧ dn.kind = .low 1 ∧
+      Lift.contentOf (.d dp) = Content.specLow 1 cp ∧ Lift.contentOf (.d dn) = Content.specLow 1 cn :=
+  collapsing_sketch_contents_regenerated 1 (by omega) exEnv _ _ _ exContract exXs exXs_ok exXs_32
+
+/-- `collapsing_sketch_contents_regenerated_high` -/
+example : let g := runAdds (newHigh exEnv 1) (unitAdds exXs)
+    g.2 = List.replicate exXs.length GoErr.nil ∧
+    ∃ (s₀ : Sketch) (cp cn : Content) (dp dn : DStore),
+      Sketch.addAll exEnv (Sketch.new (some exEnv.id) .sparse) (exXs.map (fun x => (x, 1))) = some s₀ ∧
+      s₀ = Sketch.spec (some exEnv.id) cp cn g.1.zeroCount ∧ g.1.IndexMapping = exEnv ∧ cp.WF ∧ cn.WF ∧
+      g.1.positiveValueStore.g = GenDense.toHigh ((1 : Nat) : Int) dp ∧ dp.kind = .high 1 ∧
+      g.1.negativeValueStore.g = GenDense.toHigh ((1 : Nat) : Int) dn ∧ dn.kind = .high 1 ∧
+      Lift.contentOf (.d dp) = Content.specHigh 1 cp ∧ Lift.contentOf (.d dn) = Content.specHigh 1 cn :=
+  collapsing_sketch_contents_regenerated_high 1 (by omega) exEnv _ _ _ exContract exXs exXs_ok exXs_32
+
+/-- `collapsing_quantile_retained_regenerated` -/
+example : let g := runAdds (newLow exEnv 1) (unitAdds exXs)
+    g.2 = List.replicate exXs.length GoErr.nil ∧
+    ∃ (s₀ : Sketch) (cp cn : Content),
+      Sketch.addAll exEnv (Sketch.new (some exEnv.id) .sparse) (exXs.map (fun x => (x, 1))) = some s₀ ∧
+      s₀ = Sketch.spec (some exEnv.id) cp cn g.1.zeroCount ∧
+      ∀ q : F64,
+        (∀ side k, Lift.selKey s₀ q = some (side, k) → Lift.edgeLow 1 (if side then cp else cn) ≤ k) →
+        QRel (s₀.quantile exEnv q) (DDSketch.GetValueAtQuantile g.1 q) :=
+  collapsing_quantile_retained_regenerated 1 (by omega) exEnv _ _ _ exContract exXs exXs_ok exXs_32
+    exXs_ne exXs_len
+
+/-- `dense_quantile_accuracy_regenerated` -/
+example (q : Rat) (hq0 : 0 ≤ q) (hq1 : q ≤ 1) :
+    let g := runAdds (NewDDSketch exEnv (⟨NewDenseStore⟩ : GDS) ⟨NewDenseStore⟩) (unitAdds exXs)
+    g.2 = List.replicate exXs.length GoErr.nil ∧
+    ∃ a : Rat, DDSketch.GetValueAtQuantile g.1 (.fin q) = (.fin a, GoErr.nil) ∧
+      ∃ k : Nat, k < exXs.length ∧
+        ((k : Int) = ⌊q * ((exXs.length : Rat) - 1)⌋ ∨ (k : Int) = ⌈q * ((exXs.length : Rat) - 1)⌉) ∧
+        rabs (a - (sortedInputs (4 / 3) exXs)[k]!) ≤ 1 / 2 * rabs ((sortedInputs (4 / 3) exXs)[k]!) :=
+  dense_quantile_accuracy_regenerated exEnv _ _ _ exContract exXs exXs_ok exXs_32 exXs_ne exXs_len q hq0 hq1
+
+end C05
+
+/-! ## C04GenPag: the store `NonVacuity.pagS` (one materialised page holding `3 ↦ 5/2`, the buffered entry `40`;
+    invariant `pagS_inv`, content `[(3, 5/2), (40, 1)]`), and a second store with content `[(3, 7), (40, 2)]` -/
+section C04
+open DDS.PStore DDS.GenPag DDS.Gen.Paginated DDS.Props.C04GenPag
+open DDS.Props.NonVacuity (pagS pagS_inv pagS_content)
+
+/-- `gen_observers` at the fuel `obsFuel pagS`, capacity 4 -/
+example : content pagS = [(3, 5 / 2), (40, 1)] ∧
+    BufferedPaginatedStore.IsEmpty (obsFuel pagS) (toGen pagS 4) = .ok (content pagS).isEmpty ∧
+    BufferedPaginatedStore.TotalCount (obsFuel pagS) (toGen pagS 4) = .ok (content pagS).total ∧
+    BufferedPaginatedStore.MinIndex (obsFuel pagS) (toGen pagS 4)
+      = .ok (match (content pagS).minIndex? with
+             | some m => (m, GoErr.nil) | none => ((0 : Int), errUndefinedMinIndex)) ∧
+    BufferedPaginatedStore.MaxIndex (obsFuel pagS) (toGen pagS 4)
+      = .ok (match (content pagS).maxIndex? with
+             | some m => (m, GoErr.nil) | none => ((0 : Int), errUndefinedMaxIndex)) ∧
+    (∀ r : Rat, ∃ g', BufferedPaginatedStore.KeyAtRank (obsFuel pagS) (toGen pagS 4) r
+      = .ok (g', (content pagS).keyAtRank r)) ∧
+    (∃ g', BufferedPaginatedStore.ForEach (obsFuel pagS) (toGen pagS 4) (fun _ _ => .ok false) = .ok g') ∧
+    visitTrace (fun _ _ => .ok false) pagS.binsList = content pagS :=
+  ⟨pagS_content, gen_observers pagS pagS_inv 4 _ (Nat.le_refl _)⟩
+
+/-- … the bound is a number: fuel 100 is enough for that store -/
+theorem pagS_obsFuel : obsFuel pagS ≤ 100 := by decide +kernel
+
+example : BufferedPaginatedStore.TotalCount 100 (toGen pagS 4) = .ok (7 / 2) ∧
+    BufferedPaginatedStore.MinIndex 100 (toGen pagS 4) = .ok (3, GoErr.nil) ∧
+    BufferedPaginatedStore.MaxIndex 100 (toGen pagS 4) = .ok (40, GoErr.nil) := by
+  obtain ⟨_, h2, h3, h4, _⟩ := gen_observers pagS pagS_inv 4 100 pagS_obsFuel
+  rw [pagS_content] at h2 h3 h4
+  have e2 : Content.total [((3 : Int), (5 / 2 : Rat)), (40, 1)] = 7 / 2 := by decide +kernel
+  have e3 : Content.minIndex? [((3 : Int), (5 / 2 : Rat)), (40, 1)] = some 3 := by decide +kernel
+  have e4 : Content.maxIndex? [((3 : Int), (5 / 2 : Rat)), (40, 1)] = some 40 := by decide +kernel
+  rw [e2] at h2; rw [e3] at h3; rw [e4] at h4
+  exact ⟨h2, h3, h4⟩
+
+/-- `gen_forEach_stops`: a visitor that stops at index 3 sees `[(3, 5/2)]` only -/
+example : (∃ g', BufferedPaginatedStore.ForEach 100 (toGen pagS 4) (fun i c => .ok ((fun i _ => i == 3) i c))
+      = .ok g') ∧
+    visitTrace (fun i c => .ok ((fun i _ => i == 3) i c)) pagS.binsList = [(3, 5 / 2)] := by
+  have hf : forEachFuel pagS ≤ 100 := by decide +kernel
+  obtain ⟨h1, h2⟩ := gen_forEach_stops pagS 4 (fun i _ => i == 3) 100 hf
+  refine ⟨h1, ?_⟩
+  rw [h2, pagS_content]; decide +kernel
+
+/-- `gen_reads_preserve_content` -/
+example (r : Rat) : ∃ s' : PStore, Inv s' ∧ content s' = [(3, 5 / 2), (40, 1)] ∧
+    BufferedPaginatedStore.KeyAtRank 100 (toGen pagS 4) r
+      = .ok (toGen s' 4, Content.keyAtRank [(3, 5 / 2), (40, 1)] r) ∧
+    BufferedPaginatedStore.ForEach 100 (toGen pagS 4) (fun _ _ => .ok false) = .ok (toGen s' 4) := by
+  obtain ⟨s', h1, h2, h3, h4⟩ := gen_reads_preserve_content pagS pagS_inv 4 r 100 pagS_obsFuel
+  rw [pagS_content] at h2 h3
+  exact ⟨s', h1, h2, h3, h4⟩
+
+/-- a history with every kind of operation, negative and repeated indexes, a fractional weight -/
+def gops : List GOp := [.add 3 1, .add (-100) (1 / 2), .add 3 (5 / 4), .reweight 2, .reweight 1, .add 7 1]
+
+theorem gops_ok : ∀ op ∈ gops, op.ok := by
+  intro op hop
+  simp only [gops, List.mem_cons, List.not_mem_nil, or_false] at hop
+  rcases hop with rfl | rfl | rfl | rfl | rfl | rfl
+  · exact ⟨⟨by decide, by decide⟩, by decide +kernel⟩
+  · exact ⟨⟨by decide, by decide⟩, by decide +kernel⟩
+  · exact ⟨⟨by decide, by decide⟩, by decide +kernel⟩
+  · show (0 : Rat) < 2; decide +kernel
+  · show (0 : Rat) < 1; decide +kernel
+  · exact ⟨⟨by decide, by decide⟩, by decide +kernel⟩
+
+theorem gops_spec : crun [] gops = [(-100, 1), (3, 9 / 2), (7, 1)] := by decide +kernel
+
+theorem gops_from_pagS : crun [(3, 5 / 2), (40, 1)] gops = [(-100, 1), (3, 19 / 2), (7, 1), (40, 2)] := by
+  decide +kernel
+
+/-- a history with a `Clear` in the middle -/
+def gops2 : List GOp := [.add 3 1, .clear, .add 5 (1 / 2)]
+
+theorem gops2_ok : ∀ op ∈ gops2, op.ok := by
+  intro op hop
+  simp only [gops2, List.mem_cons, List.not_mem_nil, or_false] at hop
+  rcases hop with rfl | rfl | rfl
+  · exact ⟨⟨by decide, by decide⟩, by decide +kernel⟩
+  · trivial
+  · exact ⟨⟨by decide, by decide⟩, by decide +kernel⟩
+
+/-- `gen_history_from`, from the non-empty store `pagS` -/
+example : ∃ F : Nat, ∀ (cap : Int) (grow : Int → Int → Int) (fuel : Nat), F ≤ fuel →
+    ∃ (s' : PStore) (cap' : Int), grun fuel grow (toGen pagS cap) gops = .ok (toGen s' cap') ∧ Inv s' ∧
+      content s' = [(-100, 1), (3, 19 / 2), (7, 1), (40, 2)] := by
+  obtain ⟨F, hF⟩ := gen_history_from gops gops_ok pagS pagS_inv
+  refine ⟨F, fun cap grow fuel hf => ?_⟩
+  obtain ⟨s', cap', h1, h2, h3⟩ := hF cap grow fuel hf
+  rw [pagS_content, gops_from_pagS] at h3
+  exact ⟨s', cap', h1, h2, h3⟩
+
+/-- `gen_history_observers` -/
+example : ∃ F : Nat, ∀ (grow : Int → Int → Int) (fuel : Nat), F ≤ fuel →
+    ∃ g : GP, grun fuel grow NewBufferedPaginatedStore gops = .ok g ∧
+      ∃ F' : Nat, ∀ fuel', F' ≤ fuel' →
+        BufferedPaginatedStore.IsEmpty fuel' g = .ok false ∧
+        BufferedPaginatedStore.TotalCount fuel' g = .ok (13 / 2) ∧
+        BufferedPaginatedStore.MinIndex fuel' g = .ok (-100, GoErr.nil) ∧
+        BufferedPaginatedStore.MaxIndex fuel' g = .ok (7, GoErr.nil) ∧
+        (∀ r : Rat, ∃ g', BufferedPaginatedStore.KeyAtRank fuel' g r
+          = .ok (g', Content.keyAtRank [(-100, 1), (3, 9 / 2), (7, 1)] r)) ∧
+        (∃ g', BufferedPaginatedStore.ForEach fuel' g (fun _ _ => .ok false) = .ok g') := by
+  obtain ⟨F, hF⟩ := gen_history_observers gops gops_ok
+  refine ⟨F, fun grow fuel hf => ?_⟩
+  obtain ⟨g, h1, F', hF'⟩ := hF grow fuel hf
+  refine ⟨g, h1, F', fun fuel' hf' => ?_⟩
+  obtain ⟨o1, o2, o3, o4, o5, o6⟩ := hF' fuel' hf'
+  rw [gops_spec] at o1 o2 o3 o4 o5
+  have e1 : Content.isEmpty [((-100 : Int), (1 : Rat)), (3, 9 / 2), (7, 1)] = false := by decide +kernel
+  have e2 : Content.total [((-100 : Int), (1 : Rat)), (3, 9 / 2), (7, 1)] = 13 / 2 := by decide +kernel
+  have e3 : Content.minIndex? [((-100 : Int), (1 : Rat)), (3, 9 / 2), (7, 1)] = some (-100) := by decide +kernel
+  have e4 : Content.maxIndex? [((-100 : Int), (1 : Rat)), (3, 9 / 2), (7, 1)] = some 7 := by decide +kernel
+  rw [e1] at o1; rw [e2] at o2; rw [e3] at o3; rw [e4] at o4
+  exact ⟨o1, o2, o3, o4, o5, o6⟩
+
+example : ∃ F : Nat, ∀ (grow : Int → Int → Int) (fuel : Nat), F ≤ fuel →
+    ∃ g : GP, grun fuel grow NewBufferedPaginatedStore gops2 = .ok g ∧
+      ∃ F' : Nat, ∀ fuel', F' ≤ fuel' → BufferedPaginatedStore.TotalCount fuel' g = .ok (1 / 2) := by
+  obtain ⟨F, hF⟩ := gen_history_observers gops2 gops2_ok
+  refine ⟨F, fun grow fuel hf => ?_⟩
+  obtain ⟨g, h1, F', hF'⟩ := hF grow fuel hf
+  refine ⟨g, h1, F', fun fuel' hf' => ?_⟩
+  obtain ⟨_, o2, _⟩ := hF' fuel' hf'
+  have e2 : Content.total (crun [] gops2) = 1 / 2 := by decide +kernel
+  rw [o2, e2]
+
+/-- `gen_merge`: `pagS` (content `[(3, 5/2), (40, 1)]`) receives a store with content `[(3, 7), (40, 2)]`
+    (`NonVacuity.PStoreInv_inhabited`: reached by a history with a compaction and a reweighting) -/
+example : ∃ o : PStore, Inv o ∧ content o = [(3, 7), (40, 2)] ∧
+    ∀ (cap cap' : Int) (grow : Int → Int → Int) (mf : GP → GP → Res GP),
+    ∃ (g' : GP) (s' : PStore),
+      BufferedPaginatedStore.MergeWith (mergeFuel addFuel pagS o) grow mf (toGen pagS cap) (toGen o cap') = .ok g' ∧
+      Rel g' s' ∧ Inv s' ∧ content s' = [(3, 19 / 2), (40, 3)] := by
+  obtain ⟨o, ho, hc, _⟩ := DDS.Props.NonVacuity.PStoreInv_inhabited
+  refine ⟨o, ho, hc, fun cap cap' grow mf => ?_⟩
+  obtain ⟨g', s', h1, h2, h3, h4⟩ := gen_merge pagS o pagS_inv ho cap cap' grow mf _ (Nat.le_refl _)
+  rw [pagS_content, hc] at h4
+  exact ⟨g', s', h1, h2, h3, by rw [h4]; decide +kernel⟩
+
+end C04
 
 end DDS.Props.NonVacuityGen
